@@ -75,8 +75,8 @@ Definition core_msg (version : N) (requested flags : option N) : msg :=
 Definition security_msg (method level : N) : msg :=
   MComp [ ("encryptionMethod", g_u32 method); ("encryptionLevel", g_u32 level) ].
 
-Definition net_msg (ids : list N) : msg :=
-  MComp [ ("MCSChannelId", MCheck (g_u16 1003));
+Definition net_msg (io : N) (ids : list N) : msg :=
+  MComp [ ("MCSChannelId", g_u16 io);
           ("channelCount", MDyn (g_u16 (nlen ids)) (CloSize "channelIdArray" (XMul XSelf 2)));
           ("channelIdArray", MArray (map g_u16 ids) (Some (g_u16 0))) ].
 
@@ -156,20 +156,20 @@ Ltac wf_cbn :=
   cbn [wf wf_fields wf_trame mem dyn_lookup options eval_clo eval_cexp num_of obind
        String.eqb Ascii.eqb Bool.eqb andb is_nil endian_eqb clo_eqb cexp_eqb ccond_eqb].
 
-Lemma net_wf p ids : Forall (fun i => i < 65536) ids -> nlen ids < 65536 ->
-  wf p false server_network_data (net_msg ids) = true.
+Lemma net_wf p io ids : io < 65536 -> Forall (fun i => i < 65536) ids -> nlen ids < 65536 ->
+  wf p false server_network_data (net_msg io ids) = true.
 Proof.
-  intros HF Hn. unfold server_network_data, net_msg.
+  intros Hio HF Hn. unfold server_network_data, net_msg.
   unfold g_u16. change (fun v : N => MU16 LE v) with g_u16.
   wf_cbn. rewrite mul64_ok by lia. wf_cbn.
   rewrite wf_elems_u16 by assumption. unfold length_is. rewrite length_array_eq, length_list_u16.
   rewrite !N.eqb_refl. apply N.ltb_lt in Hn. rewrite Hn.
   assert (Hm : (nlen ids * 2 <=? isize_max) = true) by (apply N.leb_le; apply N.ltb_lt in Hn; unfold isize_max; lia).
-  rewrite Hm. reflexivity.
+  rewrite Hm. apply N.ltb_lt in Hio. rewrite Hio. reflexivity.
 Qed.
 
-Lemma net_write p ids : nlen ids < 65536 ->
-  write p (net_msg ids) = Some (le16 1003 ++ le16 (nlen ids) ++ flat_map le16 ids).
+Lemma net_write p io ids : nlen ids < 65536 ->
+  write p (net_msg io ids) = Some (le16 io ++ le16 (nlen ids) ++ flat_map le16 ids).
 Proof.
   intros Hn. unfold net_msg. rewrite write_comp_eq.
   cbn [write_fields mem]. rewrite write_array_eq, write_list_u16.
@@ -184,12 +184,12 @@ Lemma app4_assoc (a b c d : bytes) : a ++ b ++ c ++ d = (a ++ b ++ c) ++ d.
 Proof. rewrite <- !app_assoc. reflexivity. Qed.
 
 (* the pad of an odd count stays unread in the block buffer *)
-Lemma read_net_body p ids : Forall (fun i => i < 65536) ids -> nlen ids < 65536 ->
-  exists a, read p server_network_data (ref_sc_net_body ids) = ROk (net_msg ids) (net_pad ids) a.
+Lemma read_net_body p io ids : io < 65536 -> Forall (fun i => i < 65536) ids -> nlen ids < 65536 ->
+  exists a, read p server_network_data (ref_sc_net_body io ids) = ROk (net_msg io ids) (net_pad ids) a.
 Proof.
-  intros HF Hn. unfold ref_sc_net_body. fold (net_pad ids).
+  intros Hio HF Hn. unfold ref_sc_net_body. fold (net_pad ids).
   rewrite app4_assoc.
-  apply (read_write p server_network_data (net_msg ids) false).
+  apply (read_write p server_network_data (net_msg io ids) false).
   - apply net_wf; assumption.
   - apply net_write; assumption.
   - intros Hd; discriminate.
@@ -221,14 +221,14 @@ Qed.
 Inductive sblock :=
 | BCore (version : N) (requested flags : option N)
 | BSecurity (method level : N)
-| BNet (ids : list N)
+| BNet (io : N) (ids : list N)
 | BOther (ty : N) (body : bytes).
 
 Definition enc_block (b : sblock) : bytes :=
   match b with
   | BCore v r f => ref_sc_core v r f
   | BSecurity m l => ref_sc_security m l
-  | BNet ids => ref_sc_net ids
+  | BNet io ids => ref_sc_net io ids
   | BOther ty body => ref_block ty body
   end.
 
@@ -238,7 +238,7 @@ Definition block_vals_ok (b : sblock) : Prop :=
   match b with
   | BCore v r f => v < 4294967296 /\ opt_lt r 4294967296 /\ opt_lt f 4294967296
   | BSecurity m l => m < 4294967296 /\ l < 4294967296
-  | BNet ids => Forall (fun i => i < 65536) ids
+  | BNet io ids => io < 65536 /\ Forall (fun i => i < 65536) ids
   | BOther ty _ => ty < 65536 /\ ty <> SC_CORE /\ ty <> SC_SECURITY /\ ty <> SC_NET
   end.
 
@@ -246,7 +246,7 @@ Definition block_vals_ok (b : sblock) : Prop :=
 Definition upd (acc : blocks) (b : sblock) : blocks :=
   match b with
   | BCore v r f => {| b_core := Some (core_msg v r f); b_net := b_net acc |}
-  | BNet ids => {| b_core := b_core acc; b_net := Some (net_msg ids) |}
+  | BNet io ids => {| b_core := b_core acc; b_net := Some (net_msg io ids) |}
   | _ => acc
   end.
 
@@ -259,7 +259,7 @@ Proof.
   cbn [flat_map]. unfold le16 at 1. rewrite nlen_app, !nlen_cons, nlen_nil, IH. lia.
 Qed.
 
-Lemma nlen_net_body ids : nlen ids * 2 + 4 <= nlen (ref_sc_net_body ids).
+Lemma nlen_net_body io ids : nlen ids * 2 + 4 <= nlen (ref_sc_net_body io ids).
 Proof.
   unfold ref_sc_net_body, le16 at 1 2. rewrite !nlen_app, !nlen_cons, nlen_nil, nlen_flat_le16. lia.
 Qed.
@@ -267,17 +267,17 @@ Qed.
 Lemma read_blocks_one p fuel b rest acc : block_vals_ok b -> nlen (enc_block b) < 65536 ->
   gcc_read_blocks p (S fuel) (enc_block b ++ rest) acc = gcc_read_blocks p fuel rest (upd acc b).
 Proof.
-  intros Hv Hn. destruct b as [v r f|m l|ids|ty body]; cbn [enc_block block_vals_ok upd] in *.
+  intros Hv Hn. destruct b as [v r f|m l|io ids|ty body]; cbn [enc_block block_vals_ok upd] in *.
   - destruct Hv as (Hv & Hr & Hf). unfold ref_sc_core in *. rewrite nlen_ref_block in Hn.
     rewrite read_blocks_step by lia. change (3073 =? SC_CORE) with true. cbv iota.
     rewrite read_core_body by assumption. reflexivity.
   - destruct Hv as (Hm & Hl). unfold ref_sc_security in *. rewrite nlen_ref_block in Hn.
     rewrite read_blocks_step by lia. change (3074 =? SC_CORE) with false. change (3074 =? SC_SECURITY) with true.
     cbv iota. rewrite read_security_body by assumption. reflexivity.
-  - unfold ref_sc_net in *. rewrite nlen_ref_block in Hn. pose proof (nlen_net_body ids) as Hb.
+  - unfold ref_sc_net in *. rewrite nlen_ref_block in Hn. pose proof (nlen_net_body io ids) as Hb. destruct Hv as [Hio Hv].
     rewrite read_blocks_step by lia.
     change (3075 =? SC_CORE) with false. change (3075 =? SC_SECURITY) with false. change (3075 =? SC_NET) with true.
-    cbv iota. destruct (read_net_body p ids Hv ltac:(lia)) as [a Hr]. rewrite Hr. reflexivity.
+    cbv iota. destruct (read_net_body p io ids Hio Hv ltac:(lia)) as [a Hr]. rewrite Hr. reflexivity.
   - destruct Hv as (Hty & H1 & H2 & H3). rewrite nlen_ref_block in Hn.
     rewrite read_blocks_step by lia.
     destruct (N.eqb_spec ty SC_CORE); [contradiction|].
@@ -387,39 +387,39 @@ Proof.
   cbn [map u16_values]. change (cast_num 16 (Some (g_u16 i))) with (Ok i). rewrite IH. reflexivity.
 Qed.
 
-Lemma server_data_ok v r f ids :
-  gcc_server_data {| b_core := Some (core_msg v r f); b_net := Some (net_msg ids) |} = Ok (ids, version_from v).
+Lemma server_data_ok v r f io ids :
+  gcc_server_data {| b_core := Some (core_msg v r f); b_net := Some (net_msg io ids) |} = Ok (io, ids, version_from v).
 Proof.
   unfold gcc_server_data. cbn [b_net b_core].
-  change (get (net_msg ids) "channelIdArray") with (Some (MArray (map g_u16 ids) (Some (g_u16 0)))).
+  change (get (net_msg io ids) "channelIdArray") with (Some (MArray (map g_u16 ids) (Some (g_u16 0)))).
   cbn [trame_of]. rewrite u16_values_map. cbn [obind].
   change (cast_num 32 (get (core_msg v r f) "rdpVersion")) with (Ok v). reflexivity.
 Qed.
 
 (* general form: whatever the order, the duplicates and the unknown blocks, the answer is
    made of the LAST core block and the LAST net block *)
-Theorem gcc_response_blocks_ok : forall p node_id tag result bl b version requested flags ids,
+Theorem gcc_response_blocks_ok : forall p node_id tag result bl b version requested flags io ids,
   Forall block_vals_ok bl -> node_id < 65536 ->
-  fold_left upd bl no_blocks = {| b_core := Some (core_msg version requested flags); b_net := Some (net_msg ids) |} ->
+  fold_left upd bl no_blocks = {| b_core := Some (core_msg version requested flags); b_net := Some (net_msg io ids) |} ->
   ref_conference_create_response node_id tag result (enc_blocks bl) = Some b ->
-  gcc_read_conference_create_response p b = Ok (ids, version_from version).
+  gcc_read_conference_create_response p b = Ok (io, ids, version_from version).
 Proof.
-  intros p node_id tag result bl b v r f ids HF Hnode Hfold Href.
+  intros p node_id tag result bl b v r f io ids HF Hnode Hfold Href.
   rewrite (gcc_response_blocks p node_id tag result bl b HF Hnode Href), Hfold. apply server_data_ok.
 Qed.
 
 (* THE ROUND TRIP, the three blocks in the order every server sends them *)
-Theorem gcc_response_roundtrip : forall p node_id tag result version requested flags method level ids b,
-  Forall (fun i => i < 65536) ids ->
+Theorem gcc_response_roundtrip : forall p node_id tag result version requested flags method level io ids b,
+  io < 65536 -> Forall (fun i => i < 65536) ids ->
   version < 4294967296 -> opt_lt requested 4294967296 -> opt_lt flags 4294967296 ->
   method < 4294967296 -> level < 4294967296 ->
   1001 <= node_id -> node_id <= 65535 -> tag < 4294967296 -> result < 256 -> nlen ids < 16000 ->
   ref_conference_create_response node_id tag result
-    (ref_sc_core version requested flags ++ ref_sc_security method level ++ ref_sc_net ids) = Some b ->
-  gcc_read_conference_create_response p b = Ok (ids, version_from version).
+    (ref_sc_core version requested flags ++ ref_sc_security method level ++ ref_sc_net io ids) = Some b ->
+  gcc_read_conference_create_response p b = Ok (io, ids, version_from version).
 Proof.
-  intros p node_id tag result v r f m l ids b Hids Hv Hr Hf Hm Hl Hlo Hhi Htag Hres Hn Href.
-  apply (gcc_response_blocks_ok p node_id tag result [BCore v r f; BSecurity m l; BNet ids] b v r f ids).
+  intros p node_id tag result v r f m l io ids b Hio Hids Hv Hr Hf Hm Hl Hlo Hhi Htag Hres Hn Href.
+  apply (gcc_response_blocks_ok p node_id tag result [BCore v r f; BSecurity m l; BNet io ids] b v r f io ids).
   - repeat constructor; assumption.
   - lia.
   - reflexivity.
@@ -433,7 +433,7 @@ Proof.
     rewrite ?nlen_app, ?nlen_cons, ?(@nlen_nil N); lia.
 Qed.
 
-Lemma nlen_net_body_le ids : nlen (ref_sc_net_body ids) <= nlen ids * 2 + 6.
+Lemma nlen_net_body_le io ids : nlen (ref_sc_net_body io ids) <= nlen ids * 2 + 6.
 Proof.
   unfold ref_sc_net_body, le16 at 1 2. rewrite !nlen_app, !nlen_cons, nlen_nil, nlen_flat_le16.
   destruct (N.odd (nlen ids)); rewrite ?nlen_cons, ?(@nlen_nil N); lia.
@@ -450,16 +450,16 @@ Proof.
     rewrite ?nlen_cons, ?(@nlen_nil N); lia.
 Qed.
 
-Theorem gcc_response_defined : forall node_id tag result version requested flags method level ids,
+Theorem gcc_response_defined : forall node_id tag result version requested flags method level io ids,
   1001 <= node_id -> node_id <= 65535 -> tag < 4294967296 -> result < 256 -> nlen ids < 16000 ->
   exists b, ref_conference_create_response node_id tag result
-              (ref_sc_core version requested flags ++ ref_sc_security method level ++ ref_sc_net ids) = Some b.
+              (ref_sc_core version requested flags ++ ref_sc_security method level ++ ref_sc_net io ids) = Some b.
 Proof.
-  intros node_id tag result v r f m l ids Hlo Hhi Htag Hres Hn.
-  set (blocks := ref_sc_core v r f ++ ref_sc_security m l ++ ref_sc_net ids).
+  intros node_id tag result v r f m l io ids Hlo Hhi Htag Hres Hn.
+  set (blocks := ref_sc_core v r f ++ ref_sc_security m l ++ ref_sc_net io ids).
   assert (Hb : nlen blocks < 32100).
   { unfold blocks, ref_sc_core, ref_sc_security, ref_sc_net. rewrite !nlen_app, !nlen_ref_block.
-    pose proof (nlen_core_body v r f). pose proof (nlen_net_body_le ids).
+    pose proof (nlen_core_body v r f). pose proof (nlen_net_body_le io ids).
     unfold ref_sc_security_body, le32. rewrite !nlen_app, !nlen_cons, nlen_nil. lia. }
   unfold ref_conference_create_response.
   destruct (N.leb_spec 1001 node_id); [|lia]. destruct (N.ltb_spec node_id (1001 + 65536)); [|lia].
@@ -475,19 +475,19 @@ Qed.
 Definition orders3 {A} (a b c : A) : list (list A) :=
   [[a; b; c]; [a; c; b]; [b; a; c]; [b; c; a]; [c; a; b]; [c; b; a]].
 
-Theorem gcc_response_any_order : forall p node_id tag result version requested flags method level ids bl b,
-  Forall (fun i => i < 65536) ids ->
+Theorem gcc_response_any_order : forall p node_id tag result version requested flags method level io ids bl b,
+  io < 65536 -> Forall (fun i => i < 65536) ids ->
   version < 4294967296 -> opt_lt requested 4294967296 -> opt_lt flags 4294967296 ->
   method < 4294967296 -> level < 4294967296 -> node_id <= 65535 ->
-  In bl (orders3 (BCore version requested flags) (BSecurity method level) (BNet ids)) ->
+  In bl (orders3 (BCore version requested flags) (BSecurity method level) (BNet io ids)) ->
   ref_conference_create_response node_id tag result (enc_blocks bl) = Some b ->
-  gcc_read_conference_create_response p b = Ok (ids, version_from version).
+  gcc_read_conference_create_response p b = Ok (io, ids, version_from version).
 Proof.
-  intros p node_id tag result v r f m l ids bl b Hids Hv Hr Hf Hm Hl Hhi Hin Href.
+  intros p node_id tag result v r f m l io ids bl b Hio Hids Hv Hr Hf Hm Hl Hhi Hin Href.
   assert (Hc : block_vals_ok (BCore v r f)) by (cbn; auto).
   assert (Hs : block_vals_ok (BSecurity m l)) by (cbn; auto).
-  assert (Hn : block_vals_ok (BNet ids)) by exact Hids.
-  apply (gcc_response_blocks_ok p node_id tag result bl b v r f ids); [| lia | | exact Href];
+  assert (Hn : block_vals_ok (BNet io ids)) by (split; assumption).
+  apply (gcc_response_blocks_ok p node_id tag result bl b v r f io ids); [| lia | | exact Href];
     cbn [orders3 In] in Hin; decompose [or] Hin; subst; try contradiction;
     try reflexivity; repeat constructor; assumption.
 Qed.
@@ -505,16 +505,16 @@ Qed.
 Lemma other_vals_ok us : Forall is_other us -> Forall block_vals_ok us.
 Proof. intros HF. eapply Forall_impl; [|exact HF]. intros u Hu. destruct u; try contradiction. exact Hu. Qed.
 
-Theorem gcc_response_unknown_blocks : forall p node_id tag result version requested flags method level ids u0 u1 u2 u3 b,
-  Forall (fun i => i < 65536) ids ->
+Theorem gcc_response_unknown_blocks : forall p node_id tag result version requested flags method level io ids u0 u1 u2 u3 b,
+  io < 65536 -> Forall (fun i => i < 65536) ids ->
   version < 4294967296 -> opt_lt requested 4294967296 -> opt_lt flags 4294967296 ->
   method < 4294967296 -> level < 4294967296 -> node_id <= 65535 ->
   Forall is_other u0 -> Forall is_other u1 -> Forall is_other u2 -> Forall is_other u3 ->
   ref_conference_create_response node_id tag result
-    (enc_blocks (u0 ++ [BCore version requested flags] ++ u1 ++ [BSecurity method level] ++ u2 ++ [BNet ids] ++ u3)) = Some b ->
-  gcc_read_conference_create_response p b = Ok (ids, version_from version).
+    (enc_blocks (u0 ++ [BCore version requested flags] ++ u1 ++ [BSecurity method level] ++ u2 ++ [BNet io ids] ++ u3)) = Some b ->
+  gcc_read_conference_create_response p b = Ok (io, ids, version_from version).
 Proof.
-  intros p node_id tag result v r f m l ids u0 u1 u2 u3 b Hids Hv Hr Hf Hm Hl Hhi H0 H1 H2 H3 Href.
+  intros p node_id tag result v r f m l io ids u0 u1 u2 u3 b Hio Hids Hv Hr Hf Hm Hl Hhi H0 H1 H2 H3 Href.
   eapply gcc_response_blocks_ok; [| |  |exact Href].
   - repeat (apply Forall_app; split); try (apply other_vals_ok; assumption); repeat constructor; cbn; auto.
   - lia.
@@ -591,19 +591,19 @@ Proof.
   apply N.ltb_lt in Hv, Hr. rewrite Hv, Hr. reflexivity.
 Qed.
 
-(* no optional field: two absent fields in a row are outside the checker (the first absent
-   one is not the last field), the round trip is proved directly *)
-Lemma server_core_data_none_not_wf p version closed :
-  wf p closed server_core_data (core_msg version None None) = false.
-Proof. unfold server_core_data, core_msg, opt_u32, g_u32. wf_cbn. apply andb_false_r. Qed.
+(* no optional field: two absent trailing fields in a row; the checker covers them (the first absent
+   field is followed by a field that writes nothing), the open reader is still refused *)
+Lemma server_core_data_none_wf p version : version < 4294967296 ->
+  wf p true server_core_data (core_msg version None None) = true /\
+  wf p false server_core_data (core_msg version None None) = false.
+Proof.
+  intros Hv. apply N.ltb_lt in Hv. unfold server_core_data, core_msg, opt_u32, g_u32. wf_cbn. rewrite Hv.
+  destruct p; split; reflexivity.
+Qed.
 
 Theorem server_core_data_roundtrip_none : forall p version, version < 4294967296 ->
-  exists b, write p (core_msg version None None) = Some b /\ mlength p (core_msg version None None) = Some (nlen b) /\
-            read p server_core_data b = ROk (core_msg version None None) [] 0.
-Proof.
-  intros p v Hv. exists (le32 v). split; [reflexivity|]. split; [reflexivity|].
-  exact (read_core_body p v None None Hv I I).
-Qed.
+  block_roundtrip p true server_core_data (core_msg version None None).
+Proof. intros p v Hv. apply read_write_total. apply server_core_data_none_wf. exact Hv. Qed.
 
 (* the bytes written are the reference block bodies *)
 Lemma core_msg_write p v r f : write p (core_msg v r f) = Some (ref_sc_core_body v r f).
@@ -614,22 +614,22 @@ Qed.
 Lemma security_msg_write p m l : write p (security_msg m l) = Some (ref_sc_security_body m l).
 Proof. reflexivity. Qed.
 
-Lemma net_msg_write p ids : nlen ids < 65536 ->
-  exists w, write p (net_msg ids) = Some w /\ ref_sc_net_body ids = w ++ net_pad ids.
+Lemma net_msg_write p io ids : nlen ids < 65536 ->
+  exists w, write p (net_msg io ids) = Some w /\ ref_sc_net_body io ids = w ++ net_pad ids.
 Proof.
   intros Hn. eexists. split; [apply net_write; exact Hn|].
   unfold ref_sc_net_body. fold (net_pad ids). apply app4_assoc.
 Qed.
 
 (* server_network_data is self-delimiting (the id array is sized by the count) *)
-Theorem server_network_data_roundtrip : forall p ids,
-  Forall (fun i => i < 65536) ids -> nlen ids < 65536 ->
-  block_roundtrip p false server_network_data (net_msg ids).
-Proof. intros p ids HF Hn. apply read_write_total. apply net_wf; assumption. Qed.
+Theorem server_network_data_roundtrip : forall p io ids,
+  io < 65536 -> Forall (fun i => i < 65536) ids -> nlen ids < 65536 ->
+  block_roundtrip p false server_network_data (net_msg io ids).
+Proof. intros p io ids Hio HF Hn. apply read_write_total. apply net_wf; assumption. Qed.
 
 (* ================================================================ (e) non-vacuity and the known defects *)
 Definition ex_blocks : bytes :=
-  ref_sc_core 524292 (Some 1) None ++ ref_sc_security 0 0 ++ ref_sc_net [1004; 1005; 1006].
+  ref_sc_core 524292 (Some 1) None ++ ref_sc_security 0 0 ++ ref_sc_net 1003 [1004; 1005; 1006].
 
 Definition ex_response : bytes :=
   [0; 5; 0; 20; 124; 0; 1; 54; 20; 118; 10; 1; 1; 0; 1; 192; 0; 77; 99; 68; 110; 40;
@@ -641,15 +641,15 @@ Example gcc_response_example_bytes : ref_conference_create_response 31219 1 0 ex
 Proof. vm_compute. reflexivity. Qed.
 
 Example gcc_response_example :
-  gcc_read_conference_create_response Debug ex_response = Ok ([1004; 1005; 1006], RdpVersion5plus)
-  /\ gcc_read_conference_create_response Release ex_response = Ok ([1004; 1005; 1006], RdpVersion5plus).
+  gcc_read_conference_create_response Debug ex_response = Ok (1003, [1004; 1005; 1006], RdpVersion5plus)
+  /\ gcc_read_conference_create_response Release ex_response = Ok (1003, [1004; 1005; 1006], RdpVersion5plus).
 Proof. split; vm_compute; reflexivity. Qed.
 
 (* the same through the theorem: its hypotheses are satisfiable *)
 Example gcc_response_example_by_theorem p :
-  gcc_read_conference_create_response p ex_response = Ok ([1004; 1005; 1006], version_from 524292).
+  gcc_read_conference_create_response p ex_response = Ok (1003, [1004; 1005; 1006], version_from 524292).
 Proof.
-  apply (gcc_response_roundtrip p 31219 1 0 524292 (Some 1) None 0 0 [1004; 1005; 1006] ex_response);
+  apply (gcc_response_roundtrip p 31219 1 0 524292 (Some 1) None 0 0 1003 [1004; 1005; 1006] ex_response);
     try (cbn [opt_lt]; lia); try exact I.
   - repeat constructor.
   - unfold nlen. cbn [List.length N.of_nat]. lia.
@@ -659,8 +659,8 @@ Qed.
 (* even count: no pad; SC_NET first, an unknown block (type 0x0C04) in between *)
 Example gcc_response_example_reordered :
   match ref_conference_create_response 1001 70000 0
-          (ref_sc_net [1004; 1005] ++ ref_block 3076 [9; 9; 9] ++ ref_sc_core 524289 None None ++ ref_sc_security 2 1) with
-  | Some b => gcc_read_conference_create_response Debug b = Ok ([1004; 1005], RdpVersion)
+          (ref_sc_net 1007 [1004; 1005] ++ ref_block 3076 [9; 9; 9] ++ ref_sc_core 524289 None None ++ ref_sc_security 2 1) with
+  | Some b => gcc_read_conference_create_response Debug b = Ok (1007, [1004; 1005], RdpVersion)
   | None => False
   end.
 Proof. vm_compute. reflexivity. Qed.
@@ -696,7 +696,7 @@ Definition ex_response_short_block : bytes :=
    3; 12; 12; 0; 235; 3; 1; 0; 236; 3; 0; 0].
 
 Example gcc_response_short_block_refused :
-  ref_conference_create_response 31219 1 0 (ref_sc_core 524292 (Some 1) None ++ [3; 12; 3; 0] ++ ref_sc_net [1004]) = Some ex_response_short_block
+  ref_conference_create_response 31219 1 0 (ref_sc_core 524292 (Some 1) None ++ [3; 12; 3; 0] ++ ref_sc_net 1003 [1004]) = Some ex_response_short_block
   /\ gcc_read_conference_create_response Debug ex_response_short_block = Err EInvalidSize
   /\ gcc_read_conference_create_response Release ex_response_short_block = Err EInvalidSize.
 Proof. repeat split; vm_compute; reflexivity. Qed.
